@@ -68,7 +68,7 @@ class RdflibTripleYielder(BaseTriplesYielder):
 
         for a_prefix_namespace_tuple in a_graph.namespaces():
             candidate_uri = str(a_prefix_namespace_tuple[1])
-            if candidate_uri not in namespaces_dict:
+            if candidate_uri not in namespaces_dict and str(a_prefix_namespace_tuple[0]) not in namespaces_dict.values():
                 if candidate_uri == _XML_WRONG_URI:  # XML fix...
                     candidate_uri += "/"             # XML fix...
                 namespaces_dict[candidate_uri] = str(a_prefix_namespace_tuple[0])
